@@ -1,1 +1,206 @@
-(* stub: to be written by group Etrade *)
+(* C19 - E*TRADE extraction accounts for every benefit and every sold share once.
+   Obligations of the property; proofs live in Proofs/EtradeProps.v.
+
+   Scope.  The theorems are about the matching core (Model/Etrade.v:
+   find_sell_to_cover_trade_set, amend_benefit_sales, txs_from_data, row order,
+   the Buy/Sell part of Tx::try_from) over abstract records: benefit entries and
+   trade confirmations as the text layer hands them over, in file order.  They
+   hold for EVERY arithmetic record [A] (in particular [dec], rust_decimal as it
+   runs, and [exact]), every number of benefits and trades, every order.  The
+   regex text layer is not modelled (differential check only).
+
+   Cost.  The search enumerates all 2^n - 1 non-empty sub-lists of the n
+   candidate trades of a benefit (C19_search_space_exponential): it terminates
+   (structural recursion) but its cost is not polynomially bounded. *)
+From Coq Require Import List NArith ZArith QArith Qcanon Bool Permutation Sorted.
+From ACB Require Import Base.Outcome Base.QcExtra Base.Fit Base.Arith Model.Etrade Proofs.EtradeProps.
+Import ListNotations.
+Local Open Scope Z_scope.
+
+(* Each benefit yields exactly one purchase: the Buy rows carrying a plan note
+   are, as a multiset, one row per benefit with the released / purchased shares
+   at the stated FMV on the release / purchase date (commission 0). *)
+Theorem C19_each_benefit_one_buy : forall A bs ts rows,
+  extract A bs ts = Ok rows ->
+  Permutation (filter is_plan_buy (map r_core rows)) (map buy_core bs).
+Proof. exact EtradeProps.each_benefit_one_buy. Qed.
+Check C19_each_benefit_one_buy : forall A bs ts rows,
+  extract A bs ts = Ok rows ->
+  Permutation (filter is_plan_buy (map r_core rows)) (map buy_core bs).
+Print Assumptions C19_each_benefit_one_buy.
+
+(* Every trade confirmation is used exactly once.  Whenever rows are emitted
+   there are sets [ms] (one per benefit, in benefit order) and leftovers [left]
+   with:  the trade confirmations are, as a multiset, the matched sets plus the
+   leftovers;  a benefit without sold shares matches nothing, a benefit with
+   sold shares [sh] matches a non-empty set of sales of the same security
+   traded within [benefit date, +5 days] whose share counts add up to [sh]
+   (matched_ok; the sum is the one the code computes, [sum_shares A]);  sold
+   shares come with sale price and fee (stc_complete);  and the emitted rows are,
+   as a multiset, per benefit its purchase plus (if it sold shares) ONE sale of
+   [sh] shares at the benefit's sale price and fee dated as the first matched
+   trade (spec_rows_of), plus one "(manual trade)" row per leftover with the
+   trade's own dates, action, quantity, price and fees (manual_core). *)
+Theorem C19_each_trade_once : forall A bs ts rows,
+  extract A bs ts = Ok rows ->
+  exists (ms : list (list trade)) (left : list trade),
+    length ms = length bs
+    /\ Permutation ts (concat ms ++ left)
+    /\ Forall (fun m => subseq m ts) ms /\ subseq left ts
+    /\ Forall2 (matched_ok A) bs ms
+    /\ Forall stc_complete bs
+    /\ Permutation (map r_core rows)
+         (flat_map (fun bm => spec_rows_of (fst bm) (snd bm)) (combine bs ms) ++ map manual_core left)
+    /\ sorted_by_settlement rows.
+Proof. exact EtradeProps.extract_structure. Qed.
+Check C19_each_trade_once : forall A bs ts rows,
+  extract A bs ts = Ok rows ->
+  exists (ms : list (list trade)) (left : list trade),
+    length ms = length bs
+    /\ Permutation ts (concat ms ++ left)
+    /\ Forall (fun m => subseq m ts) ms /\ subseq left ts
+    /\ Forall2 (matched_ok A) bs ms
+    /\ Forall stc_complete bs
+    /\ Permutation (map r_core rows)
+         (flat_map (fun bm => spec_rows_of (fst bm) (snd bm)) (combine bs ms) ++ map manual_core left)
+    /\ sorted_by_settlement rows.
+Print Assumptions C19_each_trade_once.
+
+(* A sell-to-cover that cannot be matched is an error, not a guess: if for some
+   benefit with sold shares [sh] NO non-empty sub-list of the trade
+   confirmations consists of eligible sales adding up to [sh], no rows are
+   emitted at all (the run ends in an error; with [dec] possibly in an
+   arithmetic panic). *)
+Theorem C19_unmatched_is_error : forall A bs ts b sh,
+  In b bs -> b_stc_shares b = Some sh ->
+  (forall m, subseq m ts -> m <> [] -> Forall (eligible b) m -> sum_shares A m <> Ok sh) ->
+  forall rows, extract A bs ts <> Ok rows.
+Proof. exact EtradeProps.unmatched_is_error. Qed.
+Check C19_unmatched_is_error : forall A bs ts b sh,
+  In b bs -> b_stc_shares b = Some sh ->
+  (forall m, subseq m ts -> m <> [] -> Forall (eligible b) m -> sum_shares A m <> Ok sh) ->
+  forall rows, extract A bs ts <> Ok rows.
+Print Assumptions C19_unmatched_is_error.
+
+(* ... and when the benefit states no sale price to compare with, a set is
+   chosen only if it is the ONLY set of candidates that adds up. *)
+Theorem C19_no_price_no_guess : forall A b sh cands m,
+  b_stc_price b = None ->
+  find_sell_to_cover_trade_set A b sh cands = Ok (Found m) ->
+  matching_combos A b sh (all_combos cands) = Ok [m].
+Proof. exact EtradeProps.find_noprice_unique. Qed.
+Check C19_no_price_no_guess : forall A b sh cands m,
+  b_stc_price b = None ->
+  find_sell_to_cover_trade_set A b sh cands = Ok (Found m) ->
+  matching_combos A b sh (all_combos cands) = Ok [m].
+Print Assumptions C19_no_price_no_guess.
+
+(* Rows are ordered by settlement date. *)
+Theorem C19_sorted : forall A bs ts rows,
+  extract A bs ts = Ok rows ->
+  StronglySorted (fun x y => c_sd (r_core x) <= c_sd (r_core y)) rows.
+Proof.
+  intros A bs ts rows H.
+  destruct (EtradeProps.extract_structure A bs ts rows H) as [ms [left [_ [_ [_ [_ [_ [_ [_ Hs]]]]]]]]].
+  exact Hs.
+Qed.
+Check C19_sorted : forall A bs ts rows,
+  extract A bs ts = Ok rows ->
+  StronglySorted (fun x y => c_sd (r_core x) <= c_sd (r_core y)) rows.
+Print Assumptions C19_sorted.
+
+(* Every emitted row passes the executable mirror of Tx::try_from, provided
+   the documents state positive share counts and non-negative prices and fees
+   (the text layer only reads unsigned numbers; a zero share count is the one
+   thing it does not exclude, see C19_zero_shares_needs_hypothesis). *)
+Theorem C19_accepted_by_acb : forall A bs ts rows,
+  Forall wf_benefit bs -> Forall wf_trade ts ->
+  extract A bs ts = Ok rows ->
+  Forall (fun r => acb_accepts (r_core r) = true) rows.
+Proof. exact EtradeProps.accepted_by_acb. Qed.
+Check C19_accepted_by_acb : forall A bs ts rows,
+  Forall wf_benefit bs -> Forall wf_trade ts ->
+  extract A bs ts = Ok rows ->
+  Forall (fun r => acb_accepts (r_core r) = true) rows.
+Print Assumptions C19_accepted_by_acb.
+
+(* The subset-sum search is exhaustive and exponential. *)
+Theorem C19_search_space_exponential : forall (cands : list itrade),
+  (length (all_combos cands) = 2 ^ length cands - 1)%nat.
+Proof. exact (@EtradeProps.all_combos_length itrade). Qed.
+Check C19_search_space_exponential : forall (cands : list itrade),
+  (length (all_combos cands) = 2 ^ length cands - 1)%nat.
+Print Assumptions C19_search_space_exponential.
+
+(* ---------------------------------------------------------------------
+   Non-vacuity.  An RSU release (100 shares, 10 sold at 106.36) and an ESPP
+   purchase without sale, with four trade confirmations: 6 + 4 shares sold the
+   next day (average price exactly 106.36), a single sale of 10 shares at 150
+   the same day (equal share count: the price decides against it) and a
+   purchase.  Under rust_decimal arithmetic the run emits 5 rows: the two
+   benefit purchases, one sell-to-cover of 10 dated as the 6-share trade, and
+   two manual trades; ordered by settlement date. *)
+Definition q (n : Z) (d : positive) := Qcfrac n d.
+Definition ex_rsu : benefit :=
+  {| b_sec := 0; b_date := 100; b_settle := 100; b_price := q 10561 100; b_shares := q 100 1;
+     b_stc_td := None; b_stc_sd := None; b_stc_price := Some (q 10636 100);
+     b_stc_shares := Some (q 10 1); b_stc_fee := Some (q 417 100); b_note := 0; b_sell_note := None |}.
+Definition ex_espp : benefit :=
+  {| b_sec := 0; b_date := 98; b_settle := 98; b_price := q 1005 10; b_shares := q 57 1;
+     b_stc_td := None; b_stc_sd := None; b_stc_price := None; b_stc_shares := None;
+     b_stc_fee := None; b_note := 1; b_sell_note := None |}.
+Definition mkt td sd a pr sh tg : trade :=
+  {| t_sec := 0; t_td := td; t_sd := sd; t_act := a; t_price := pr; t_shares := sh;
+     t_comm := q 5 100; t_tag := tg |}.
+Definition ex_trades : list trade :=
+  [ mkt 101 105 ASell (q 15000 100) (q 10 1) 0;
+    mkt 101 103 ASell (q 10630 100) (q 6 1) 1;
+    mkt 99 100 ABuy (q 9000 100) (q 3 1) 2;
+    mkt 101 103 ASell (q 10645 100) (q 4 1) 3 ].
+Ltac qc_conc :=
+  first [ apply Qcltb_true; vm_compute; reflexivity | apply Qcleb_true; vm_compute; reflexivity ].
+Definition row_view (r : row) :=
+  (c_sd (r_core r), c_act (r_core r), Qnum (this (c_shares (r_core r))), c_memo (r_core r), r_ri r).
+
+Example C19_nonvacuous :
+  Forall wf_benefit [ex_rsu; ex_espp] /\ Forall wf_trade ex_trades /\
+  match extract dec [ex_rsu; ex_espp] ex_trades with
+  | Ok rows =>
+      map row_view rows
+      = [ (98, ABuy, 57, MemoPlan 1, 2%nat);
+          (100, ABuy, 100, MemoPlan 0, 0%nat);
+          (100, ABuy, 3, MemoManual, 4%nat);
+          (103, ASell, 10, MemoPlanSell 0 None, 1%nat);
+          (105, ASell, 10, MemoManual, 3%nat) ]
+  | _ => False
+  end.
+Proof.
+  assert (Hb : forall b, In b [ex_rsu; ex_espp] -> wf_benefit b).
+  { intros b [<-|[<-|[]]]; unfold wf_benefit; cbn [ex_rsu ex_espp b_shares b_price b_stc_shares b_stc_price b_stc_fee];
+      repeat split; try qc_conc; intros x Heq; (discriminate Heq || (inversion Heq; subst x; qc_conc)). }
+  assert (Ht : forall t, In t ex_trades -> wf_trade t).
+  { intros t [<-|[<-|[<-|[<-|[]]]]]; unfold wf_trade; cbn [mkt t_shares t_price t_comm]; repeat split; qc_conc. }
+  split; [apply Forall_forall; exact Hb|]. split; [apply Forall_forall; exact Ht|].
+  vm_compute. reflexivity.
+Qed.
+
+(* The hypothesis of C19_unmatched_is_error is satisfiable, and the outcome is
+   then the error of amend_benefit_sales: the same release with only a sale six
+   days later. *)
+Example C19_unmatched_nonvacuous :
+  extract dec [ex_rsu] [mkt 106 108 ASell (q 10636 100) (q 10 1) 0] = Rej rej_amend_errors
+  /\ extract exact [ex_rsu] [mkt 106 108 ASell (q 10636 100) (q 10 1) 0] = Rej rej_amend_errors.
+Proof. split; vm_compute; reflexivity. Qed.
+
+(* Positive share counts are needed for C19_accepted_by_acb: a release of
+   0 shares is emitted as a Buy of 0 shares, which Tx::try_from rejects. *)
+Definition ex_zero : benefit :=
+  {| b_sec := 0; b_date := 100; b_settle := 100; b_price := q 10561 100; b_shares := q 0 1;
+     b_stc_td := None; b_stc_sd := None; b_stc_price := None; b_stc_shares := None;
+     b_stc_fee := None; b_note := 0; b_sell_note := None |}.
+Example C19_zero_shares_needs_hypothesis :
+  match extract dec [ex_zero] [] with
+  | Ok [r] => acb_accepts (r_core r) = false
+  | _ => False
+  end.
+Proof. vm_compute. reflexivity. Qed.
